@@ -163,6 +163,16 @@ PROPS = {
                      'suspend(d) resumes at now + d, postpone() in the same time step (C01)'],
         partial=[],
     ),
+    'C16': dict(
+        gen=['Flow', 'Scope'], props=['C16', 'C05', 'C10', 'Skeletons'], model=['Machine/Run', 'Machine/Step', 'Judge/Judges'], harness='c16',
+        trusted_base=KERNEL_TB + MACHINE_TB + [
+            'translated from source: first()\'s effective count, ValueError guard, volatile= of the monitors, the slice; collect()\'s spawn/read order; templates: first, _first_monitor, collect',
+            'asyncstdlib.islice (third party) is modelled (takes `count` items, then returns without another fetch), tied by correspondence only',
+            'CPython finalises an abandoned async generator at once (reference counting, no asyncgen hooks): modelled as GeneratorExit at the yield when the loop statement is left'],
+        assumptions=['results become available in the order of Queue.put (C10), the scope closes volatile children and reports failures (C04, C05)',
+                     'a failure of an activity in the very time step in which the consumer leaves the loop may go unnoticed (both orders accepted)'],
+        partial=[],
+    ),
     'C20': dict(
         gen=['Timing', 'Scope'], props=['C20', 'C02', 'Skeletons'], model=['Machine/Run', 'Machine/Step', 'Judge/Judges'], harness='c20',
         trusted_base=KERNEL_TB + MACHINE_TB + ['templates: postpone/suspend/__await__ of conditions, Scope.__aexit__; the per-operation code paths are hand-modelled in Machine/Run.lean and tied by exact trace correspondence'],
@@ -324,6 +334,20 @@ MANIFEST_TEXT = {
         note='trusted: Lean kernel + standard axioms; translator; Float/CPython double agreement and CPython sum() modelled; rounding covered only by the judge tolerance',
         technique='Lean 4 proof over translated arithmetic (induction over windows) + bit-exact whole-machine differential traces + Lean fluid-model judge',
         design_ref='6 (C13)'),
+    'C16': dict(
+        level='Lean 4 theorems for every world state on the machine\'s code paths of first()/collect(), tied to decisions translated '
+              'from basics.py on every run: ValueError iff count exceeds the number of activities and then nothing is spawned '
+              '(first_rejects), one volatile monitor per activity in argument order over a fresh queue (first_accepts), the '
+              'iteration stops after count results without another fetch (first_stops_after_count), break or any exception in '
+              'the consumer\'s body finalises the generator first - closing every monitor - and only then continues '
+              '(break_finalises, body_exception_finalises, finalisation_then_original), collect reads results in argument order '
+              'and returns no partial result (collect_last/next/exception). first() and collect() are part of the exact '
+              'whole-machine correspondence (ties, failures, slow consumers, break, cancelled callers, deadlines); a Lean judge '
+              'checks values, order, times and "no code of the losers afterwards" on implementation traces.',
+        note='trusted: Lean kernel + standard axioms; translator; asyncstdlib.islice and CPython generator finalisation modelled; '
+             'observation outside the statement: a failing activity while the consumer is inside its loop body surfaces as the private CancelScope signal (F14, DESIGN.md)',
+        technique='Lean 4 proof over the frame machine + exact whole-machine differential traces + Lean trace judge',
+        design_ref='6 (C16)'),
     'C20': dict(
         level='Lean 4 theorems for every world state: postpone() always hibernates the caller and queues its wake-up behind '
               'everything already runnable (postpone_hibernates, with C02 fifo_now); each listed operation in a state where it '
